@@ -56,10 +56,12 @@ Prism == NV(6) \o << FV(<<0, 2, 1>>), FV(<<0, 1, 4, 3>>), FV(<<1, 2, 5, 4>>), FV
 (* a second tetrahedron 0,1,4,5 that shares only the edge (0,1) with the first *)
 EdgeShare == NV(6) \o TetFaces \o << FV(<<0, 4, 1>>), FV(<<0, 1, 5>>), FV(<<1, 4, 5>>), FV(<<0, 5, 4>>),
                       KLF("add_cell", <<0, 2, 4, 6>>, TRUE), KLF("add_cell", <<8, 10, 12, 14>>, TRUE) >>
-(* degenerate faces: a loop edge carrying a face of valence 1, parallel edges carrying a 2-gon *)
+(* degenerate faces: a loop edge carrying a face of valence 1, parallel edges carrying a 2-gon, *)
+(* one edge carrying a 2-gon on its two halfedges                                            *)
 Degenerate == NV(3) \o << K("add_edge", 0, 0, <<>>, TRUE), KLF("add_face", <<0>>, TRUE),
                           K("add_edge", 0, 1, <<>>, FALSE), K("add_edge", 1, 0, <<>>, TRUE),
-                          KLF("add_face", <<2, 4>>, TRUE), K("add_edge", 1, 2, <<>>, FALSE) >>
+                          KLF("add_face", <<2, 4>>, TRUE), K("add_edge", 1, 2, <<>>, FALSE),
+                          KLF("add_face", <<6, 7>>, TRUE) >>   \* a 2-gon on both halfedges of ONE edge: a single halfface of it is a closed surface
 
 (* square pyramid whose base edges exist beforehand in mixed directions and order, so that the *)
 (* faces use odd halfedges and edge handles are not in face order (12: with the cell, 13: faces only) *)
